@@ -1,4 +1,5 @@
 import ProductMD.Proofs.ImagesLoadExact
+import ProductMD.Proofs.ImagesLoadTotal
 /-!
 Histories that cross the version gate on one object: `add`, `dumps` (sets the header to the current version),
 assignment to `header.version`, `loads` into the same object.  `Uniq` is not an invariant of such histories (below
@@ -128,6 +129,16 @@ theorem loadInto_noNewPairs (doc : PyVal) (s0 s : ImgState) (n0 : Nat)
   rw [hadd] at this
   exact hp.trans this
 
+/-- **total `loads`**: into an object in use, of a document whose header (when it can be read) enforces the scan:
+no new colliding pair in the object the call leaves behind — returned or raised, wherever it raised -/
+theorem loadsInto_noNewPairs (doc : PyVal) (s0 : ImgState) (n0 : Nat)
+    (hv : ∀ ver, headerDeserialize doc = .ok ver → Enforces ver) :
+    NoNewPairs s0.cells (loadsInto s0 n0 doc).1.cells := by
+  refine loadsInto_inv doc s0 n0 (fun x => NoNewPairs s0.cells x.cells) (fun _ _ e h => e ▸ h) ?_ (NoNewPairs.refl _)
+  intro ver hver
+  refine ⟨fun s v a id img hs hp => ?_⟩
+  exact hp.trans (add_noNewPairs s v a id img (hs ▸ hv ver hver))
+
 theorem mem_all_cellsDiscard {cs : Cells} {v a : Str} {id : Nat} {x : Image} (h : x ∈ (cellsDiscard cs v a id).all) : x ∈ cs.all := by
   simp only [Cells.all, cellsDiscard, List.mem_flatMap, List.mem_map] at h ⊢
   obtain ⟨va', ⟨va, hva, rfl⟩, ac', hac', e, he, rfl⟩ := h
@@ -164,10 +175,7 @@ theorem hstep_noNewPairs (s : ImgState) (op : HOp) (h : OpEnforced s op) : NoNew
   | dumps => simp only [hstep, dumps_state]; exact NoNewPairs.refl _
   | setVersion v => exact NoNewPairs.refl _
   | loads doc n0 =>
-    simp only [hstep]
-    cases hd : deserializeInto s n0 doc with
-    | error e => exact NoNewPairs.refl _
-    | ok s' => exact loadInto_noNewPairs doc s s' n0 h hd
+    exact loadsInto_noNewPairs doc s n0 h
   | discard v a id => exact noNewPairs_of_subset fun x hx => mem_all_cellsDiscard hx
   | delVariant v => exact noNewPairs_of_subset fun x hx => mem_all_cellsDelVariant hx
 
